@@ -1,6 +1,7 @@
 //! hv — bounded-exhaustive explorer (engine E1) for the huginn-net properties.
 //! usage: hv run <ID> <quick|thorough> <out.json>
 //!        hv replay <ID> <replay.json>
+mod drv;
 mod gen;
 mod props;
 mod refm;
